@@ -277,6 +277,8 @@ def gen(shard, rng, tier):
             scripts.append(("single-bit", {"MODE": "hex", "HEX": (1 << b).to_bytes(nb, "big").hex()}))
         for mode, ent in scripts:
             argv = _new(L) if L != 12 or rng.random() < 0.5 else ["new"]
+            if rng.random() < 0.3:
+                argv = argv + rng.choice([["--language", "english"], ["--language=English"], ["-l", "ENGLISH"], ["--language", "eNgLiSh"]])
             steps = [{"cli": {"argv": argv, "ent": ent}}]
             if rng.random() < 0.4:
                 steps.append({"cli": {"argv": ["address"], "env": {"MNEMONIC": "@OUT:0@"}}})
